@@ -330,6 +330,10 @@ pub async fn handle_srt_packet(
                     || srtla_protocol::is_srt_data_retransmit(pkt))
                 && let Some(best_idx) = srtla_core::priority::select_best_quality_idx(connections)
                 && sel_idx != Some(best_idx)
+                // The override only re-ranks links the scheduler itself would admit:
+                // never onto a stall-gated (black-holed) or timed-out link.
+                && !connections[best_idx].is_stall_gated()
+                && !connections[best_idx].is_timed_out(packet_time_ms)
             {
                 trace!(
                     "critical override (window/retransmit): link {} -> {}",
